@@ -57,6 +57,9 @@ KINDS = {
     "count_start": {"count": 6, "start_size": 0.07},
     "count_total": {"count": 5, "total_expansion": 3.0},
     "count_end": {"count": 4, "end_size": 0.12},
+    # uniform cells: with two sections (same count on 0.3 and 0.7 of the edge) every expansion is exactly 1 and only the
+    # ORDER of the sections tells the two ends apart
+    "count_only": {"count": 4},
 }
 PRESERVE = ["c2c_expansion", "start_size", "end_size"]
 
@@ -97,6 +100,13 @@ def cases(tier, seed):
                             out.append({"assembly": name, "dir": g, "geom": geom, "kind": kind, "preserve": pres, "sections": sections, "tier": tier})
                             if geom == "stretch" and sections == 1:
                                 out.append({"assembly": name, "dir": g, "geom": geom, "kind": kind, "preserve": pres, "sections": sections, "tier": tier, "rewrite": True})
+                            if geom == "stretch" and sections == 1 and len(ASSEMBLIES[name]) == 3 and (pres == "c2c_expansion" or pres in KINDS[kind]):
+                                # the first AND the last block carry the request (equal blocks: no conflict), the one in
+                                # between copies from both; written, stretched, written again.
+                                # (Only requests that GIVE the preserved quantity: a size that is derived - e.g. the last
+                                # cell of start_size + c2c_expansion - is taken before or after rounding the count depending
+                                # on which end it is at, so the request and its mirror image rightly differ; section 13)
+                                out.append({"assembly": name, "dir": g, "geom": geom, "kind": kind, "preserve": pres, "sections": sections, "tier": tier, "rewrite": True, "twochop": True})
                             if geom in ("jitter1", "jitter2", "taper") and sections == 1 and pres == "c2c_expansion" and name == "row2" and kind.startswith("count"):
                                 # (a request that fixes the count: with a size-derived count the two blocks rightly conflict)
                                 out.append({"assembly": name, "dir": g, "geom": geom, "kind": kind, "preserve": pres, "sections": sections, "tier": tier, "overspec": True})
@@ -166,7 +176,7 @@ def make_script(case, numbering):
                 chops.append([0, g, kw])
         else:
             chops.append([root[0], root[1], {"count": 2 + k % 3}])
-    if case.get("overspec"):
+    if case.get("overspec") or case.get("twochop"):
         # the same request is also given to the last block of the subject family (a user chopping "every block the same")
         last = max(m[0] for m in fam.parent if fam.find(m) == subject_root)
         for kw in subject_chops(case, size[g]):
@@ -251,6 +261,8 @@ def run_case(case):
         coords["numbering"] = numbering
         if case.get("overspec"):
             coords["overspec"] = True
+        if case.get("twochop"):
+            coords["twochop"] = True
         if kind != "ok":
             outcomes[f"{kind}:{payload}"] = outcomes.get(f"{kind}:{payload}", 0) + 1
             violations.append({"clause": "well-posed-chops-rejected", "coords": coords, "detail": f"{kind} {payload}"})
